@@ -79,6 +79,47 @@ fn alias_devs(xor: bool, p: usize, a: Fe, b: Fe, h: &Honest) -> Vec<Dev> {
     devs
 }
 
+/// Forged product wire: in the last quad round the output quad is wrong and
+/// the product wire `w` is a root of (w - A B) + op(A, B, w, E', q_c) = 0, so
+/// that the product residual and the op residual cancel (they are the two
+/// identity components a shared separation weight would merge). The row model
+/// rejects it; it is always replayed on the real prover.
+fn forged_product_devs(xor: bool, p: usize, h: &Honest) -> Vec<Dev> {
+    let mut devs = vec![];
+    if p == 0 {
+        return devs;
+    }
+    let lo = h.meta.lo;
+    let w = &h.snap.witnesses;
+    let i = p - 1;
+    let prev = |k: usize| if i == 0 { zero() } else { w[lo + 4 * (i - 1) + k] };
+    let four = fe(4);
+    let aa = w[lo + 4 * i] - four * prev(0);
+    let bb = w[lo + 4 * i + 1] - four * prev(1);
+    let ee = w[lo + 4 * i + 3] - four * prev(3);
+    let qc = if xor { neg1() } else { one() };
+    let s = aa + bb;
+    for e2 in 0..4u64 {
+        let e2f = fe(e2);
+        if e2f == ee {
+            continue;
+        }
+        // (w - AB) + q_c(9E' - 3S) + 3(S + E') - 2(4w^3 + (81 - 18S)w^2 + (18(A^2+B^2) - 81S + 83)w) = 0
+        let c3 = -fe(8);
+        let c2 = -fe(2) * (fe(81) - fe(18) * s);
+        let c1 = one() - fe(2) * (fe(18) * (aa * aa + bb * bb) - fe(81) * s + fe(83));
+        let c0 = -(aa * bb) + qc * (fe(9) * e2f - fe(3) * s) + fe(3) * (s + e2f);
+        for root in m5::cubic_roots([c0, c1, c2, c3]) {
+            if root == aa * bb {
+                continue;
+            }
+            let out_acc = w[lo + 4 * i + 3] + (e2f - ee);
+            devs.push(Dev { script: vec![(lo + 4 * i + 2, root), (lo + 4 * i + 3, out_acc)], tag: format!("forged-product(out-quad {}->{})", hex(&ee), e2), must_confirm: true });
+        }
+    }
+    devs
+}
+
 pub fn cases(tier: Tier) -> Vec<GCase> {
     let seed = seed();
     let mut out = vec![];
@@ -88,7 +129,11 @@ pub fn cases(tier: Tier) -> Vec<GCase> {
                 let g = gadget(xor, p, a, b);
                 let spec = m5::logic(&a, &b, 2 * p, xor);
                 let mut c = GCase::new(g, Expect::Sat(vec![spec]), &format!("logic/{}", if xor { "xor" } else { "and" }));
-                c.named = Some(Arc::new(move |h: &Honest| alias_devs(xor, p, a, b, h)));
+                c.named = Some(Arc::new(move |h: &Honest| {
+                    let mut d = alias_devs(xor, p, a, b, h);
+                    d.extend(forged_product_devs(xor, p, h));
+                    d
+                }));
                 c.extra = Some(Arc::new(move |_k, v| vec![("+2".into(), v + fe(2)), ("+3".into(), v + fe(3)), ("^1".into(), if v == zero() { one() } else { zero() })]));
                 c.confirm = tier == Tier::Thorough || p <= 4 || p % 32 == 0 || p == 127;
                 c.rewire = p <= 1 || ((p == 3 || (tier == Tier::Thorough && p % 16 == 0)) && a == zero());
